@@ -281,6 +281,17 @@ def pre_state_ok(pre_posd, self_, meta, first_node):
                                       has(pre_posd, mol, x_) == z3.Not(build_of(meta, x_))))
 
 
+def start_on_start_point(self_, old_self, meta):
+    """a start residue that had no position when the walk began sits exactly on the start point handed to the walker (C05: 'the first
+    residue of a molecule without coordinates sits on a point of the start grid' -- the grid point is chosen by the caller)"""
+    posd, old = self_.fields["nonbond_matrix"].fields["posd"], old_self.fields["nonbond_matrix"].fields["posd"]
+    mol = old_self.fields["mol_idx"]
+    root = start_of(old_self, meta)
+    kt = key_term(posd.k, (mol, root))
+    st = old_self.fields["start"]
+    return z3.Implies(z3.Not(has(old, mol, root)), z3.And(has(posd, mol, root), *[posd.comps[i][kt] == ops.real(st.data[i]) for i in range(3)]))
+
+
 def all_built(self_, meta):
     path = meta.fields["search_tree"].fields["edges"]
     posd = self_.fields["nonbond_matrix"].fields["posd"]
@@ -314,6 +325,7 @@ RANDOM_WALK = REG.add(Contract(
     ensures={
         "on success every residue of the molecule is positioned": "implies(self.success, all_built(self, meta_molecule))",
         "other molecules and supplied residues never change": "others_untouched(self, old(self), old(meta_molecule))",
+        "on success a start residue without coordinates sits on the start point": "implies(self.success, start_on_start_point(self, old(self), old(meta_molecule)))",
     },
     loops={0: Loop({**{w: f"walk_{w}(self, meta_molecule, entry['self'].nonbond_matrix.posd, step_count, first_node)" for w in WALK_PARTS},
                     "pre": "pre_state_ok(entry['self'].nonbond_matrix.posd, self, meta_molecule, first_node)",
@@ -321,7 +333,7 @@ RANDOM_WALK = REG.add(Contract(
                     "directions": "same_rows(vector_bundle, self.vector_sphere)",
                     })},
     spec_fns={"tree_facts": tree_facts, "engine_matches_flags": engine_matches_flags, **{f"walk_{w}": walk_inv(w) for w in WALK_PARTS}, "pre_state_ok": pre_state_ok,
-              "all_built": all_built, "others_untouched": others_untouched, "walker_frame": walker_frame,
+              "all_built": all_built, "others_untouched": others_untouched, "walker_frame": walker_frame, "start_on_start_point": start_on_start_point,
               "METAMOL_eq": lambda a, b: METAMOL.eq(a, b), "CNT": CNT, "has": has, "member_def": lambda b: member_def(b),
               "same_rows": lambda a, b: z3.And(a.n == b.n, *[x == y for x, y in zip(a.comps, b.comps)])},
     modifies=["self.nonbond_matrix.posd", "self.success", "self.placed_nodes", "self.prev_prob", "meta_molecule.root"],
@@ -538,6 +550,18 @@ def built_and_others_untouched(bs, old_bs, mol_idx, molecule, vector_sphere):
     return z3.And(all_built(w_new, molecule), others_untouched(w_new, w_old, molecule))
 
 
+def start_on_grid(bs, old_bs, mol_idx, molecule, vector_sphere):
+    """C05: the first residue of a molecule without coordinates sits on a point of the start grid"""
+    w_old = walk_of(old_bs, mol_idx, molecule, vector_sphere)
+    posd, old = bs.fields["nonbond_matrix"].fields["posd"], old_bs.fields["nonbond_matrix"].fields["posd"]
+    root = start_of(w_old, molecule)
+    kt = key_term(posd.k, (mol_idx, root))
+    grid = old_bs.fields["box_grid"]
+    i = z3.Int("i_")
+    return z3.Implies(z3.Not(has(old, mol_idx, root)),
+                      z3.Exists([i], z3.And(0 <= i, i < grid.n, *[posd.comps[c][kt] == grid.comps[c][i] for c in range(3)])))
+
+
 def bs_frame(bs, old_bs):
     return z3.And(TList(V3).eq(bs.fields["box_grid"], old_bs.fields["box_grid"]), V3.eq(bs.fields["box"], old_bs.fields["box"]),
                   bs.fields["maxiter"] == old_bs.fields["maxiter"], BUILDSYS.fields["start_dict"].eq(bs.fields["start_dict"], old_bs.fields["start_dict"]),
@@ -569,6 +593,8 @@ HANDLE_WALK = REGH.add(Contract(
         "a built molecule has every residue positioned; supplied residues and other molecules are untouched":
             "implies(result[0], built_and_others_untouched(self, old(self), mol_idx, molecule, vector_sphere))",
         "the engine handed back is the system's engine": "ENGINE_eq(result[1], self.nonbond_matrix)",
+        "a built molecule whose start residue had no coordinates has it on a point of the start grid":
+            "implies(result[0], start_on_grid(self, old(self), mol_idx, molecule, vector_sphere))",
     },
     loops={0: Loop({"every failed attempt so far has been rolled back": "rolled_back(self, old(self), mol_idx, molecule)",
                     "frame": "bs_frame(self, old(self)) and mol_idx == entry['mol_idx'] and METAMOL_eq(molecule, entry['molecule'])"
@@ -577,7 +603,7 @@ HANDLE_WALK = REGH.add(Contract(
     ghost={"after:processor.run_molecule(molecule)": hook_engine_is_shared,
            "after:processor.nonbond_matrix.remove_positions(mol_idx, built_nodes)": hook_engine_is_shared},
     inline_callees=["polyply.src.random_walk:RandomWalk.__init__", "polyply.src.random_walk:RandomWalk.run_molecule"],
-    spec_fns={"attempt_pre": attempt_pre, "rolled_back": rolled_back, "built_and_others_untouched": built_and_others_untouched,
+    spec_fns={"start_on_grid": start_on_grid, "attempt_pre": attempt_pre, "rolled_back": rolled_back, "built_and_others_untouched": built_and_others_untouched,
               "bs_frame": bs_frame, "member_def": lambda b: member_def(b), "METAMOL_eq": lambda a, b: METAMOL.eq(a, b),
               "ENGINE_eq": lambda a, b: ENGINE.eq(a, b),
               "same_rows": lambda a, b: z3.And(a.n == b.n, *[x == y for x, y in zip(a.comps, b.comps)])},
